@@ -112,10 +112,19 @@ def handlePhase (st : DState) (op : String) (j : Json) : Except String (Ledger Ã
           | _, _ => [])
       | _ => pure []
     let probe : Bool â† optField j "probe" false
+    -- independence (C09): an instruction that is accepted alone on the same state, did not take
+    -- effect in the phase, and had nothing take effect before it, was disturbed by another
+    -- vehicle's rejected instruction
+    let taken : List Bool â† optField j "taken" []
+    let alone : List (Nat Ã— Bool) â† optField j "alone" []
+    let indep : List String := alone.flatMap fun (k, acc) =>
+      if acc && !(taken.getD k false) && !((taken.take k).any id) then
+        [s!"C09/independence| instruction {k} of the phase is accepted when it is applied alone to the same state; in the phase it did not take effect although no instruction before it did: a rejected instruction for another vehicle disturbed it"]
+      else []
     let (ledger', lv) := if probe then (st.ledger, []) else st.ledger.phase pre post evs
     let fifo := if op == "update" then viol18Step env pre post ++ viol04Move env.isEmpty pre post ++ viol18Observed env st.joined pre post else []
     let acct := if probe then [] else viol19Step pre post evs
-    let mon := monitorAll env post ++ viol04 cap post ++ viol04Step pre post ++ viol05Step isEl pre post evs ++ single ++ lv ++ fifo ++ acct
+    let mon := monitorAll env post ++ viol04 cap post ++ viol04Step pre post ++ viol05Step isEl pre post evs ++ single ++ indep ++ lv ++ fifo ++ acct
     pure (ledger', Json.mkObj [("diff", strs d), ("mon", strs mon)])
 
 /-- transition probe: `transition_previous_to_next(sim, env, vehicle's activity, next)` for an
